@@ -1,8 +1,13 @@
 #!/usr/bin/env python3
-"""Generates the prompt handed to a seeding sub-agent: ONLY the property text and a scratch worktree path."""
+"""Generates the prompt handed to a seeding sub-agent: ONLY the property text and a scratch worktree path.
+usage: seed_prompt.py <Cxx> [tag] [mechanism-index]   (the optional mechanism is one of the property's own anchors)"""
 import json,sys
 props={json.loads(l)['id']:json.loads(l) for l in open('/verif/properties.jsonl')}
 T=open('/verif/tools/seed_prompt.tmpl').read()
 pid=sys.argv[1]; tag=sys.argv[2] if len(sys.argv)>2 else pid
 p=props[pid]
-print(T.replace('{WT}',f'/tmp/wt-{tag}').replace('{TITLE}',p['title']).replace('{STATEMENT}',p['statement']).replace('{QUANT}',p['quantifier']['text']))
+out=T.replace('{WT}',f'/tmp/wt-{tag}').replace('{TITLE}',p['title']).replace('{STATEMENT}',p['statement']).replace('{QUANT}',p['quantifier']['text'])
+if len(sys.argv)>3:
+    m=p['anchors']['mechanism'][int(sys.argv[3])]
+    out+=f"\n\nFocus: the property names several mechanisms; put your change into this one: {m['name']} ({m['where']})."
+print(out)
